@@ -376,6 +376,7 @@ class CoreGen:
         self.rng = rng
         self.nc = 0
         self.k = 0
+        self.protect = False
 
     def slot(self):
         self.nc += 1
@@ -389,6 +390,8 @@ class CoreGen:
         r = self.rng
         v = "x" if r.random() < 0.8 else "y"
         o = r.choice(allow)
+        if self.protect and o in ("del", "asg", "casg", "cdel"):
+            v = "y"          # contrast mode: only the statements next to the jump change x
         if o == "none":
             return []
         if o == "del":
@@ -419,48 +422,68 @@ class CoreGen:
             fin = self.op(("del", "asg", "read", "none", "casg", "call")) + self.op(("none", "read", "other"))
             if fin_jump:
                 fin = fin + [fin_jump]
-            return [("fin", self.op(("none", "del", "asg", "call")) + inner + self.op(("none", "asg", "del", "read")),
-                     fin or [("pass",)])]
+            tail = [] if is_term(inner) else self.op(("none", "asg", "del", "read"))
+            return [("fin", self.op(("none", "del", "asg", "call")) + inner + tail, fin or [("pass",)])]
         if kind in ("E", "A"):
             hb = self.op(("read", "asg", "del", "none", "call")) + self.op(("none", "read", "other"))
             if r.random() < 0.25:
                 hb = hb + [r.choice([("continue",), ("break",)])] if self.inloop else hb
-            asv = ("e" if r.random() < 0.7 else "x") if kind == "A" else None
+            asv = ("e" if (r.random() < 0.7 or self.protect) else "x") if kind == "A" else None
             el = None if r.random() < 0.6 else (self.op(("asg", "read", "del")) or [("pass",)])
-            body = self.op(("none", "del", "asg", "call", "call")) + inner + self.op(("none", "call", "asg"))
+            body = self.op(("none", "del", "asg", "call", "call")) + inner + (
+                [] if is_term(inner) else self.op(("none", "call", "asg")))
             return [("try", body, el, [(asv, hb or [("pass",)])])]
         if kind == "W":
-            asv = r.choice([None, "x", "y"])
+            asv = r.choice([None, "y"] if self.protect else [None, "x", "y"])
             return [("with", self.slot(), asv, self.op(("none", "del", "asg", "call")) + inner
-                     + self.op(("none", "asg", "del")))]
+                     + ([] if is_term(inner) else self.op(("none", "asg", "del"))))]
         raise ValueError(kind)
 
     def function(self, jump, wraps, loopkind, fin_jump_prob=0.0):
         r = self.rng
         self.inloop = True
         guarded = (jump != "none") and (r.random() < 0.85)
-        inner = self.jump_stmt(jump, guarded) if jump != "none" else self.op(("call", "asg", "del"))
-        inner = self.op(("none", "del", "asg", "call")) + inner
+        contrast = (jump != "none") and r.random() < 0.6
+        self.protect = contrast
+        if contrast:
+            # the definedness of x on the jump path differs from the fall-through path
+            guarded = True
+            if r.random() < 0.7:
+                inner = [("del", "x")] + self.jump_stmt(jump, True) + [("asg", "x", self.const())]
+            else:
+                inner = [("asg", "x", self.const())] + self.jump_stmt(jump, True) + [("del", "x")]
+        else:
+            inner = self.jump_stmt(jump, guarded) if jump != "none" else self.op(("call", "asg", "del"))
+            inner = self.op(("none", "del", "asg", "call")) + inner
+        self.unguarded = (jump != "none") and not guarded
         for i, w in enumerate(wraps):
             fj = None
             if w == "F" and r.random() < fin_jump_prob:
                 fj = r.choice([("continue",), ("break",), ("return", self.const())])
             inner = self.wrap(w, inner, fj)
-            if i + 1 < len(wraps) and r.random() < 0.5:
+            if i + 1 < len(wraps) and r.random() < 0.5 and not is_term(inner):
                 inner = self.op(("none", "del", "asg")) + inner + self.op(("none", "asg", "del", "read"))
-        head = self.op(("read", "read", "none", "casg"))
-        pre = self.op(("del", "del", "asg", "none", "cdel"))
-        post = self.op(("asg", "asg", "del", "none", "read", "casg"))
+        if contrast:
+            head = [("read", "x")] if r.random() < 0.8 else []
+            pre = self.op(("none", "other", "call"))
+            post = self.op(("none", "read", "other"))
+        else:
+            head = self.op(("read", "read", "none", "casg"))
+            pre = self.op(("del", "del", "asg", "none", "cdel"))
+            post = self.op(("asg", "asg", "del", "none", "read", "casg"))
         body = head + pre + inner + post
         el = None if r.random() < 0.5 else (self.op(("read", "asg", "del")) or [("pass",)])
+        if contrast and el is not None:
+            el = [("read", "x")]
         if loopkind == "for":
-            lv = r.choice(["i", "i", "x", "y"])
+            lv = r.choice(["i", "i", "y"] if contrast else ["i", "i", "x", "y"])
             loop = ("for", lv, self.slot(), body, el)
         else:
             loop = ("while", self.slot(), body, el)
         self.inloop = False
+        self.protect = False
         out = []
-        init = r.choice(["asg", "asg", "casg", "none"])
+        init = "asg" if contrast else r.choice(["asg", "asg", "casg", "none"])
         if init == "asg":
             out.append(("asg", "x", self.const()))
         elif init == "casg":
